@@ -9,5 +9,6 @@ CONSTANTS
   CheckCancel = TRUE
   Recheck = TRUE
   Fix6 = TRUE
+  FixReg = TRUE
 INVARIANTS NoLostTimeout
 CHECK_DEADLOCK FALSE
